@@ -10,7 +10,7 @@ import time
 from mc.core import Space, HarnessError, raised, VERIF, REPO
 
 ID = "C20"
-RULE = ("operation alphabet = one representative call of every public function/method (122 operations incl. randomised calls under a fixed NumPy "
+RULE = ("operation alphabet = one representative call of every public function/method (136 operations incl. randomised calls under a fixed NumPy "
         "seed and calls that raise); reference = each operation alone in a process forked from the pristine import state (cross-checked against "
         "truly fresh interpreters); explored: every single operation, every ordered pair (no state abstraction), triples over the stateful "
         "operations, and a BFS over canonical module states (data globals, __defaults__/__kwdefaults__, class attributes) where every operation "
@@ -196,13 +196,15 @@ def spaces(tier):
         # dictionaries or long-lived fixtures (thorough: all pairs)
         hot = {"kdtree", "kdtree-hamming", "kdtree-custom-ncpu2", "kdtree-maxreturns-ncpu2", "similarity_clustermap", "similarity_clustermap-norm",
                "hierarchical_clustering-kws", "labels_to_colors_hls", "nearest_neighbor_tcrdist-kwargs", "nearest_neighbor_tcrdist", "seqlogos-styled", "seqlogos",
-               "fixture-Cdr3Levenshtein-cdist", "fixture-WeightedLevenshtein-cdist", "fixture-SymdelDB-lookup", "fixture-SymdelDB-lookup-custom-tight", "fixture-LookupDB-lookup-k2", "fixture-LookupDB-lookup-k1-custom",
+               "fixture-Cdr3Levenshtein-cdist", "fixture-WeightedLevenshtein-cdist", "fixture-SymdelDB-lookup", "fixture-SymdelDB-lookup-custom-tight", "raise-fixture-Cdr3Levenshtein-pdist-beta-only", "fixture-LookupDB-lookup-k2", "fixture-LookupDB-lookup-k1-custom",
                "new-Cdr3Levenshtein-default-cdist", "powerlaw_mle_alpha-exact-bounds", "powerlaw_mle_alpha-exact", "load_pcDelta_background", "raise-kdtree-ncpu0",
                "raise-TcrMetric-non-table", "symdel-k2", "nearest_neighbor", "hash_based", "density_scatter-colormap-object"} & set(names)
         for a in names:
             for b in names:
                 if q and a not in hot and b not in hot:
                     continue
+                if q and (a.startswith("guarded-") or b.startswith("guarded-")):
+                    continue        # write-recording tables: judged call by call (single operations, BFS); paired in the thorough tier
                 if q and ((a in slow and b not in hot) or (b in slow and a not in hot)):
                     continue        # the 0.3 s clustermap operations are paired with the stateful operations only (quick)
                 yield ("hist", (a, b))
